@@ -1,5 +1,7 @@
 import Proofs.C14Layout
 import Proofs.C14Mean
+import Proofs.C14PamRun
+import Proofs.C01Examples
 /-!
 C14 — MPI-striped clustering and reductions equal their serial counterparts.
 
@@ -167,11 +169,9 @@ theorem kmedoids_inputs_counterexample : ¬ C14_kmedoids_inputs_full := by
     ONE collective quantity, the cost `_msq` = `striped_array_mean` of the squared distances
     (proposal = `randind` + `bcast`, medoid frames = `distribute_frame`, both above).  This is
     the cost part: on the round-robin layout the distributed cost of any per-frame array `f`
-    equals the serial mean over the concatenated data.  (`mpi_pam_consistent` in full — that the
-    distributed sweep preserves `Consistent` and never raises the cost — is NOT proved here: the
-    distributed sweep itself is not modelled in `Model/Mpi.lean`; it is covered on the
-    implementation side by the invariants and by equality with serial PAM under identical
-    proposals.) -/
+    equals the serial mean over the concatenated data.  (The distributed sweep itself is
+    modelled in `Model/MpiPam.lean`; `mpi_pam_refines_serial`, `mpi_pam_consistent` and
+    `mpi_pam_cost_antitone` below build on this cost lemma.) -/
 theorem mpi_pam_cost_partial (w : Nat) (hw : 0 < w) (L : List Nat) (hN : 0 < L.sum) (f : Nat → Rat) :
     stripedMean w (fun r => (localFrames w L r).map f) =
       .ok (((List.range L.sum).map f).sum / (((List.range L.sum).map f).length : Rat)) := by
@@ -184,6 +184,220 @@ theorem mpi_pam_cost_partial (w : Nat) (hw : 0 < w) (L : List Nat) (hN : 0 < L.s
     simp at this
     omega
 
+/-! ## distributed k-medoids (PAM): refinement of the serial sweep, consistency, cost
+
+Model: `Model/MpiPam.lean` (every rank runs the serial per-frame update of `Model/Cluster.lean`
+on its local arrays against the broadcast proposal frame; cost = striped mean; one common
+accept/reject decision).  `Striped lay ms ss` (Proofs/C14PamStep.lean): the distributed state `ms`
+is the serial state `ss` dealt to the ranks.  `ReassemblesTo w L ms ss` (Proofs/C14PamRun.lean):
+`assemble_striped_ragged_array` / `convert_local_indices` applied to `ms` return exactly `ss`.
+No tie-freeness is needed: PAM has no arg-max, every rank decides from the same global cost. -/
+section Pam
+open Ens.Cluster Ens.MpiPam
+
+/-- **One distributed PAM step = the serial step on the concatenated data.**  For every world
+    size `w ≥ 1`, every vector of positive trajectory lengths with at least `w` trajectories,
+    every table, every center number and every proposal `(rank, local index)` that is a frame
+    of its owner: the proposal's global frame is what `convert_local_indices` returns, and
+    either both steps succeed — same old and new cost, same accept/reject decision, and the
+    distributed result reassembles exactly to the serial result — or both trip the assert. -/
+theorem mpi_pam_step_refines_serial (w : Nat) (hw : 0 < w) (L : List Nat) (hT : w ≤ L.length)
+    (hpos : ∀ l ∈ L, 0 < l) (D : Table) (ms : PState) (ss : St)
+    (hr : Striped (stripeLayout w L) ms ss) (cid : Nat) (p : Nat × Nat)
+    (hp1 : p.1 < w) (hp2 : p.2 < (stripeLayout w L).m p.1) :
+    ∃ g, convertLocalIndices w L [p] = .ok [g] ∧
+      ((∃ mst sst, mpiPamStep (stripeLayout w L) D ms cid p = .ok mst ∧ pamStep D L.sum ss cid g = .ok sst ∧
+          mst.y = g ∧ mst.oldCost = sst.oldCost ∧ mst.newCost = sst.newCost ∧ mst.acc = sst.acc ∧
+          ReassemblesTo w L mst.after sst.after) ∨
+       (mpiPamStep (stripeLayout w L) D ms cid p = .error (.mpi .assertion) ∧
+          pamStep D L.sum ss cid g = .error .assertion)) := by
+  have hb := stripeLayout_bij w hw L hT hpos
+  have hm := meanOK_stripeLayout w hw L (sum_pos_of w hw L hT hpos)
+  refine ⟨(stripeLayout w L).X p.1 p.2, ?_, ?_⟩
+  · rw [convert_of_valid w hw L hT [p] (by simpa using ⟨hp1, hp2⟩)]; rfl
+  · rcases step_refines hb hm D hr cid hp1 hp2 with ⟨mst, sst, g1, g2, _, _, g5, g6, g7, g8, g9⟩ | h
+    · exact Or.inl ⟨mst, sst, g1, g2, g5, g6, g7, g8, reassemblesTo_of_striped w hw L hT g9⟩
+    · exact Or.inr h
+
+/-- **One distributed sweep (`_kmedoids_pam_update` in MPI mode) refines the serial sweep**, for
+    explicit proposals or random ones drawn through `randind` from any oracle: whenever the
+    distributed sweep returns, the serial sweep on the concatenated data, handed the global
+    frames of the proposals the ranks used, returns too; step by step the costs and the
+    accept/reject decisions coincide, and the distributed result reassembles exactly to the
+    serial result. -/
+theorem mpi_pam_refines_serial (w : Nat) (hw : 0 < w) (L : List Nat) (hT : w ≤ L.length)
+    (hpos : ∀ l ∈ L, 0 < l) (D : Table) (ms : PState) (ss : St)
+    (hr : Striped (stripeLayout w L) ms ss) (props : Option (List (Nat × Nat))) (orc orc' : List Nat)
+    (ms' : PState) (tr : List MStep)
+    (h : mpiPamUpdate (stripeLayout w L) D ms props orc = .ok (ms', orc', tr)) :
+    ∃ ss' tr', pamUpdate D L.sum ss (some (tr.map (·.y))) [] = .ok (ss', [], tr') ∧
+      ReassemblesTo w L ms' ss' ∧ Striped (stripeLayout w L) ms' ss' ∧
+      tr.map (·.acc) = tr'.map (·.acc) ∧ tr.map (·.oldCost) = tr'.map (·.oldCost) ∧
+      tr.map (·.newCost) = tr'.map (·.newCost) ∧
+      (∀ st ∈ tr, convertLocalIndices w L [st.p] = .ok [st.y]) := by
+  have hb := stripeLayout_bij w hw L hT hpos
+  have hm := meanOK_stripeLayout w hw L (sum_pos_of w hw L hT hpos)
+  obtain ⟨ss', tr', k1, k2, k3⟩ := update_refines hb hm D hr h
+  refine ⟨ss', tr', k1, reassemblesTo_of_striped w hw L hT k2, k2, ?_, ?_, ?_, ?_⟩
+  · exact forall₂_map_eq k3 _ _ fun a b hab => hab.2.2.2.2.1
+  · exact forall₂_map_eq k3 _ _ fun a b hab => hab.2.2.1
+  · exact forall₂_map_eq k3 _ _ fun a b hab => hab.2.2.2.1
+  · intro st hst
+    obtain ⟨v1, v2, hy⟩ := update_trace_valid hb hr h st hst
+    rw [convert_of_valid w hw L hT [st.p] (by simpa using ⟨v1, v2⟩), hy]; rfl
+
+/-- **Distributed k-medoids with explicit `(rank, index)` proposals = serial k-medoids with the
+    proposals' global frames**, for any number of sweeps (`_kmedoids_iterations`): the global
+    frames are what `convert_local_indices` returns for the proposals; the serial run on the
+    concatenated data returns whenever the distributed one does; the final states and the states
+    after every sweep reassemble exactly to the serial ones; all accept/reject decisions agree. -/
+theorem mpi_kmedoids_refines_serial (w : Nat) (hw : 0 < w) (L : List Nat) (hT : w ≤ L.length)
+    (hpos : ∀ l ∈ L, 0 < l) (D : Table) (ms : PState) (ss : St)
+    (hr : Striped (stripeLayout w L) ms ss) (nIters : Nat) (ps : List (Nat × Nat))
+    (hv : ∀ p ∈ ps, p.1 < w ∧ p.2 < (stripeLayout w L).m p.1) (orc : List Nat) (r : MRun)
+    (h : mpiKmedoidsIterations (stripeLayout w L) D nIters ms (some ps) orc = .ok r) :
+    ∃ gs sr, convertLocalIndices w L ps = .ok gs ∧
+      kmedoidsIterations D L.sum nIters ss (some gs) [] = .ok sr ∧
+      ReassemblesTo w L r.final sr.final ∧
+      List.Forall₂ (ReassemblesTo w L) r.sweeps sr.sweeps ∧
+      r.trace.map (·.acc) = sr.trace.map (·.acc) := by
+  have hb := stripeLayout_bij w hw L hT hpos
+  have hm := meanOK_stripeLayout w hw L (sum_pos_of w hw L hT hpos)
+  obtain ⟨k, rfl, hsw⟩ := iterations_ok h
+  obtain ⟨sr, j1, j2, j3, j4⟩ := sweeps_refines_explicit hb hm D ps (k+1) hr hsw
+  refine ⟨_, sr, convert_of_valid w hw L hT ps hv, ?_, reassemblesTo_of_striped w hw L hT j2, ?_,
+    forall₂_map_eq j3 _ _ fun a b hab => hab.2.2.2.2.1⟩
+  · unfold kmedoidsIterations
+    simp only [Nat.succ_ne_zero, if_false]
+    exact j1
+  · exact List.Forall₂.imp (fun a b hab => reassemblesTo_of_striped w hw L hT hab) j4
+
+/-- **The distributed k-medoids stage keeps the clustering consistent** (C01's predicate), for
+    every world size, every striping, every table of distinct points, any number of sweeps and
+    any source of proposals (explicit pairs, or `randind` draws from any oracle): if the start
+    is the striped view of a consistent state, the library's reassembly of the final
+    distributed state — and of the state after every sweep — succeeds and is consistent. -/
+theorem mpi_pam_consistent (w : Nat) (hw : 0 < w) (L : List Nat) (hT : w ≤ L.length)
+    (hpos : ∀ l ∈ L, 0 < l) (D : Table) (T : TableOK D L.sum) (ms : PState) (ss : St)
+    (hr : Striped (stripeLayout w L) ms ss) (hs : Consistent D L.sum ss) (nIters : Nat)
+    (props : Option (List (Nat × Nat))) (orc : List Nat) (r : MRun)
+    (h : mpiKmedoidsIterations (stripeLayout w L) D nIters ms props orc = .ok r) :
+    ∀ x ∈ r.final :: r.sweeps, ∃ rs, reassemble w L x = .ok rs ∧ Consistent D L.sum rs ∧
+      rs.ctrInds.length = ss.ctrInds.length := by
+  have hb := stripeLayout_bij w hw L hT hpos
+  have hm := meanOK_stripeLayout w hw L (sum_pos_of w hw L hT hpos)
+  obtain ⟨k, rfl, hsw⟩ := iterations_ok h
+  obtain ⟨ss', cs, i1, i2, _, _, _, i6⟩ := sweeps_inv hb hm D props (k+1) hr hsw
+  obtain ⟨c1, c2⟩ := i6 T hs
+  intro x hx
+  rcases List.mem_cons.mp hx with rfl | hx'
+  · obtain ⟨rs, e1, e2, e3⟩ := reassembled_consistent w hw L hT i1 c1
+    exact ⟨rs, e1, e2, by rw [e3, i2]⟩
+  · obtain ⟨sx, sx1, sx2, sx3⟩ := c2 x hx'
+    obtain ⟨rs, e1, e2, e3⟩ := reassembled_consistent w hw L hT sx1 sx2
+    exact ⟨rs, e1, e2, by rw [e3, sx3]⟩
+
+/-- **The distributed k-medoids stage never raises the cost**: along the whole accept/reject
+    history of all sweeps the global cost (`striped_array_mean` of the squared local distances)
+    is defined, never increases, and the result's cost is the minimum of the history — from
+    any striped start (consistent or not), any proposals. -/
+theorem mpi_pam_cost_antitone (w : Nat) (hw : 0 < w) (L : List Nat) (hT : w ≤ L.length)
+    (hpos : ∀ l ∈ L, 0 < l) (D : Table) (ms : PState) (ss : St)
+    (hr : Striped (stripeLayout w L) ms ss) (nIters : Nat)
+    (props : Option (List (Nat × Nat))) (orc : List Nat) (r : MRun)
+    (h : mpiKmedoidsIterations (stripeLayout w L) D nIters ms props orc = .ok r) :
+    ∃ (c0 c1 : Rat) (cs : List Rat),
+      mpiCost (stripeLayout w L) ms.arr = .ok c0 ∧ c0 = cost L.sum ss.arr.dist ∧
+      mpiCost (stripeLayout w L) r.final.arr = .ok c1 ∧
+      costsAfter (stripeLayout w L) r.trace = cs.map .ok ∧
+      (c0 :: cs).Pairwise (fun x y => y ≤ x) ∧ (∀ x ∈ c0 :: cs, c1 ≤ x) := by
+  have hb := stripeLayout_bij w hw L hT hpos
+  have hm := meanOK_stripeLayout w hw L (sum_pos_of w hw L hT hpos)
+  obtain ⟨k, rfl, hsw⟩ := iterations_ok h
+  obtain ⟨ss', cs, i1, _, i3, i4, i5, _⟩ := sweeps_inv hb hm D props (k+1) hr hsw
+  exact ⟨_, _, cs, mpiCost_eq hb hm _ _ hr.dist, rfl, mpiCost_eq hb hm _ _ i1.dist, i3, i4, i5⟩
+
+/-- …and from the striped view of a consistent state, with one valid explicit proposal per
+    center, the distributed sweeps always run through (no assert trips, no rank raises): the
+    hypotheses `= .ok r` above are never vacuous -/
+theorem mpi_pam_total (w : Nat) (hw : 0 < w) (L : List Nat) (hT : w ≤ L.length)
+    (hpos : ∀ l ∈ L, 0 < l) (D : Table) (T : TableOK D L.sum) (ms : PState) (ss : St)
+    (hr : Striped (stripeLayout w L) ms ss) (hs : Consistent D L.sum ss) (nIters : Nat) (hi : 0 < nIters)
+    (ps : List (Nat × Nat)) (hl : ps.length = ms.ctrs.length)
+    (hv : ∀ p ∈ ps, p.1 < w ∧ p.2 < (stripeLayout w L).m p.1) (orc : List Nat) :
+    ∃ r, mpiKmedoidsIterations (stripeLayout w L) D nIters ms (some ps) orc = .ok r := by
+  have hb := stripeLayout_bij w hw L hT hpos
+  have hm := meanOK_stripeLayout w hw L (sum_pos_of w hw L hT hpos)
+  unfold mpiKmedoidsIterations
+  simp only [Nat.pos_iff_ne_zero.mp hi, if_false]
+  exact sweeps_total hb hm T hv nIters orc hr hs hl
+
+/-- the six points of C01/C09 (`0 1 3 | 10 12 15`, centers = frames 0 and 5) dealt to 2 ranks as
+    trajectories of lengths 1, 2, 3: rank 0 holds frames 0,3,4,5, rank 1 holds frames 1,2 -/
+def ms6 : PState := scatter (stripeLayout 2 [1, 2, 3]) Ex.s6 [(0, 0), (0, 3)]
+
+example : (List.range 2).map (localFrames 2 [1, 2, 3]) = [[0, 3, 4, 5], [1, 2]] := by decide
+
+-- the hypotheses of the theorems above are satisfiable
+example : Striped (stripeLayout 2 [1, 2, 3]) ms6 Ex.s6 :=
+  scatter_striped (by decide) _ (by decide) (by decide)
+example : Consistent Ex.D6 ([1, 2, 3] : List Nat).sum Ex.s6 :=
+  Consistent.of_runMin Ex.D6_ok (RunMin.assignNearest Ex.D6 6 [0, 5]) (by decide) (Inj_of_nodup (by decide)) (by decide)
+example : ∀ p ∈ [((1 : Nat), (0 : Nat)), (0, 2)], p.1 < 2 ∧ p.2 < (stripeLayout 2 [1, 2, 3]).m p.1 := by decide
+
+/-- two sweeps with proposals frame 1 = (rank 1, 0) and frame 4 = (rank 0, 2): both accepted in
+    the first sweep, rejected in the second; same decisions and costs as the serial run of
+    Props/C09.lean (`22/3 → 13/2 → 3`) -/
+example : (mpiKmedoidsIterations (stripeLayout 2 [1, 2, 3]) Ex.D6 2 ms6 (some [(1, 0), (0, 2)]) []).toOption.map
+    (fun r => (r.final.ctrs, r.trace.map (fun st => (st.y, st.acc, st.newCost)))) =
+    some ([(1, 0), (0, 2)], [(1, true, 13/2), (4, true, 3), (1, false, 3), (4, false, 3)]) := by
+  decide +kernel
+example : (mpiKmedoidsIterations (stripeLayout 2 [1, 2, 3]) Ex.D6 2 ms6 (some [(1, 0), (0, 2)]) []).toOption.map
+    (fun r => ((r.final.arr 0).assignA, (r.final.arr 1).assignA)) = some (#[0, 1, 1, 1], #[0, 0]) := by
+  decide +kernel
+example : ((mpiKmedoidsIterations (stripeLayout 2 [1, 2, 3]) Ex.D6 2 ms6 (some [(1, 0), (0, 2)]) []).toOption.bind
+    (fun r => (reassemble 2 [1, 2, 3] r.final).toOption)).map (fun s => (s.ctrInds, s.arr.assignA)) =
+    some ([1, 4], #[0, 0, 0, 1, 1, 1]) := by decide +kernel
+/-- random proposals through `randind`: draws 1 and 0 pick frame 3 for center 0 (rejected) and
+    frame 3 for center 1 (accepted) -/
+example : (mpiPamUpdate (stripeLayout 2 [1, 2, 3]) Ex.D6 ms6 none [1, 0]).toOption.map
+    (fun o => o.2.2.map (fun st => (st.p, st.y, st.acc))) =
+    some [((1, 1), 2, false), ((0, 1), 3, true)] := by decide +kernel
+
+/-- a random proposal under MPI (`_propose_new_center_amongst(mpi_mode=True)`: `randind` over the
+    ranks' member lists of cluster `cid`, any oracle draw) is a frame of its owner and a member
+    of the cluster being updated — the distributed counterpart of C09's
+    `random_proposal_is_member` -/
+theorem mpi_random_proposal_is_member (lay : Layout) (s : PState) (cid : Nat) (orc orc' : List Nat)
+    (p : Nat × Nat) (h : mpiPropose lay s cid none orc = .ok (p, orc')) :
+    p.1 < lay.w ∧ p.2 < lay.m p.1 ∧ (s.arr p.1).assign p.2 = (cid : Nat) :=
+  ⟨(mpiPropose_random_member h).1, (mpiPropose_random_member h).2.1, (mpiPropose_random_member h).2.2.1⟩
+
+/-- `kmedoids(...)` under MPI with a warm start only converts the centers (`ctr_ids_mpi`) and
+    checks them before it runs `_kmedoids_iterations`; the `medoid_coords` are re-broadcast by
+    every sweep, so whatever coordinates the start state is given, the run is the same: the
+    theorems above apply to the entry point with `coords := ` the serial coordinates. -/
+theorem mpi_kmedoids_entry (w : Nat) (L : List Nat) (D : Table) (nIters : Nat) (arrs : List Arr)
+    (centers : List (Nat × Nat) ⊕ List Nat) (props : Option (List (Nat × Nat))) (orc : List Nat) (r : MRun)
+    (h : mpiKmedoids w L D nIters arrs centers props orc = .ok r) :
+    ∃ ctrs, warmCenters w L centers = .ok ctrs ∧
+      ∀ coords, mpiKmedoidsIterations (stripeLayout w L) D nIters
+        { arrs := arrs, ctrs := ctrs, coords := coords } props orc = .ok r := by
+  obtain ⟨ctrs, h1, h2⟩ := mpiKmedoids_ok h
+  refine ⟨ctrs, h1, fun coords => ?_⟩
+  rw [← h2]
+  exact mpiKmedoidsIterations_coords (stripeLayout w L) D nIters { arrs := arrs, ctrs := ctrs, coords := [] } coords props orc
+
+/-- the entry point on the six points: centers given as (trajectory, frame) pairs `(0,0)`, `(2,2)`
+    = frames 0 and 5, or as flat ids -/
+example : (mpiKmedoids 2 [1, 2, 3] Ex.D6 2 ms6.arrs (.inl [(0, 0), (2, 2)]) (some [(1, 0), (0, 2)]) []).toOption.map
+    (fun r => (r.final.ctrs, r.trace.map (·.acc))) = some ([(1, 0), (0, 2)], [true, true, false, false]) := by
+  decide +kernel
+example : (mpiKmedoids 2 [1, 2, 3] Ex.D6 1 ms6.arrs (.inr [0, 5]) none [1, 0]).toOption.map
+    (fun r => (r.final.ctrs, r.trace.map (·.acc))) = some ([(0, 0), (0, 1)], [false, true]) := by
+  decide +kernel
+
+end Pam
 /-! ## striped loading -/
 
 /-- `load_h5_as_striped` / `load_npy_as_striped`, any subsampling stride `s ≥ 1`: every key /
